@@ -44,6 +44,9 @@ type Conn struct {
 	in          chan *Line
 	out         chan string
 	connected   bool
+	// Incremented for every connection attempt, so that the goroutines of
+	// a finished connection can't tear down the one that replaced it.
+	generation uint64
 
 	// Capabilities supported by the server
 	supportedCaps *capSet
@@ -333,6 +336,7 @@ func (conn *Conn) initialise() {
 	conn.in = make(chan *Line, 32)
 	conn.out = make(chan string, 32)
 	conn.die = nil
+	conn.generation++
 	if conn.st != nil {
 		conn.st.Wipe()
 	}
@@ -484,6 +488,7 @@ func hasPort(s string) bool {
 // It shuttles data from the output channel to write(), and is killed
 // when the context is cancelled.
 func (conn *Conn) send(ctx context.Context) {
+	gen := conn.generation
 	for {
 		select {
 		case line := <-conn.out:
@@ -491,7 +496,7 @@ func (conn *Conn) send(ctx context.Context) {
 				logging.Error("irc.send(): %s", err.Error())
 				// We can't defer this, because Close() waits for it.
 				conn.wg.Done()
-				conn.Close()
+				conn.close(gen)
 				return
 			}
 		case <-ctx.Done():
@@ -500,7 +505,7 @@ func (conn *Conn) send(ctx context.Context) {
 			// stuck in a handler that is blocked writing to conn.out,
 			// which nothing drains once we are gone.
 			conn.wg.Done()
-			conn.Close()
+			conn.close(gen)
 			return
 		}
 	}
@@ -510,6 +515,7 @@ func (conn *Conn) send(ctx context.Context) {
 // It receives "\r\n" terminated lines from the server, parses them into
 // Lines, and sends them to the input channel.
 func (conn *Conn) recv() {
+	gen := conn.generation
 	for {
 		s, err := conn.io.ReadString('\n')
 		if err != nil {
@@ -518,7 +524,7 @@ func (conn *Conn) recv() {
 			}
 			// We can't defer this, because Close() waits for it.
 			conn.wg.Done()
-			conn.Close()
+			conn.close(gen)
 			return
 		}
 		s = strings.Trim(s, "\r\n")
@@ -554,6 +560,7 @@ func (conn *Conn) ping(ctx context.Context) {
 // It pulls Lines from the input channel and dispatches them to any
 // handlers that have been registered for that IRC verb.
 func (conn *Conn) runLoop(ctx context.Context) {
+	gen := conn.generation
 	for {
 		select {
 		case line := <-conn.in:
@@ -564,7 +571,7 @@ func (conn *Conn) runLoop(ctx context.Context) {
 
 			// We can't defer this, because Close() waits for it.
 			conn.wg.Done()
-			conn.Close()
+			conn.close(gen)
 			return
 		}
 	}
@@ -618,10 +625,18 @@ func (conn *Conn) rateLimit(chars int) time.Duration {
 // the sending or receiving goroutines encounter an error.
 // It may also be used to forcibly shut down the connection to the server.
 func (conn *Conn) Close() error {
+	return conn.close(0)
+}
+
+// close does the work of Close. The connection's own goroutines pass the
+// generation they were started for: they call this after leaving the
+// WaitGroup, by which time the client may already have reconnected, and
+// they must not close a connection that isn't theirs.
+func (conn *Conn) close(gen uint64) error {
 	// Guard against double-call of Close() if we get an error in send()
 	// as calling sock.Close() will cause recv() to receive EOF in readstring()
 	conn.mu.Lock()
-	if !conn.connected {
+	if !conn.connected || (gen != 0 && gen != conn.generation) {
 		conn.mu.Unlock()
 		return nil
 	}
